@@ -76,7 +76,7 @@ class AdiabaticMD:
         t0 = last_snap["time"]
         dt = t0 - penultimate_snap["time"]
         weight = log.weight
-        previous_steps = len(log)
+        previous_steps = len(log) - 1  # the log also holds the initial snapshot
 
         # use inferred data if available, but let kwargs override
         for key, val in [["dt", dt]]:
